@@ -12,7 +12,7 @@ CLAUSES = {
     "particle-vars-equal": "per-particle variables in those files are equal",
 }
 BOUNDS = {
-    "quick": "one scenario on the real ROMS grid/forcing (rebuilt at the restart time; symbolic release depth) plus, with plug-in grid/forcing: Nsteps 4..7, period 1..2, numrec 1..2, restart from every completed file but the last, continuous release every 2 steps (+ one scenario restarting from a file without the num_particles attribute; + one late discrete row; + two scenarios with a second source row at a symbolic step on or off the frequency grid), one IBM kill (symbolic flag, any step), IBM age variable, scalar forcing, EF/RK2/RK4; positions, velocity, particle values symbolic",
+    "quick": "one scenario on the real ROMS grid/forcing (rebuilt at the restart time; symbolic release depth) plus, with plug-in grid/forcing: Nsteps 4..7, period 1..2, numrec 1..2, restart from every completed file but the last, continuous release every 2 steps (+ one scenario restarting from a file without the num_particles attribute; + one late discrete row; + two scenarios with a second source row at a symbolic step on or off the frequency grid; + a time-typed particle variable stored in seconds, hours, days, with explicit reference or without units; + variables unlisted, without default, stored as i1), one IBM kill (symbolic flag, any step), IBM age variable, scalar forcing, EF/RK2/RK4; positions, velocity, particle values symbolic",
     "thorough": "Nsteps up to 8, period 1..3, numrec 1..3",
 }
 ASSUMES = ["values are stored exactly (output precision is outside the claim)", "diffusion off", "plug-in grid/forcing with constant velocity (the ROMS forcing restart is C03's time-shift argument)"]
